@@ -39,6 +39,12 @@ CHECKS = {
             "Exploration: generated data classes over the Field/Options product with inputs using names, aliases, case variants, "
             "duplicates and extra keys; outcomes of the two strategies compared (equal values; same failure kind via the collected error sets).",
             "Trusted: vf/oracle.py equal/plain; the notion of 'same kind' = (exception class, item) membership in the other strategy's collected set.", "3/C06"),
+    "C09": ("property-based testing (Hypothesis): combinator trees in drawn argument orders against truth-table semantics computed from the standalone verdicts of the arguments; permutation metamorphic relation for xor; construction algebra",
+            "hypothesis",
+            "Exploration: unions, exclusive-ors, conjunctions and negations over 30 leaf types (builtins, constrained, generics, literals, enums, "
+            "data classes, nested combinators) built by operators, constructors and typing.Union, with inputs aimed at each argument; the outcome "
+            "is compared with the semantics stated in the property, every xor is re-run under all permutations, and the algebra laws are checked on every tree.",
+            "Trusted: standalone verdicts via utype.type_transform (arguments are judged by C01/C02), vf/tspec.py:conforms, vf/oracle.py:equal.", "3/C09"),
     "C12": ("differential/metamorphic property-based testing (Hypothesis + exhaustive pair table): the same (source, target) under the 4 flag combinations; subset+equality relation and independent no-loss / group predicates",
             "hypothesis",
             "Exploration: a fixed table of ~170 representative sources x 29 targets x 2 entries x 4 flag sets enumerated completely on every run, "
